@@ -379,6 +379,11 @@ func init() {
 				c04StringAccess(c)
 			}},
 			{ID: "C04.R9", Doc: "token consumers are total: the helpers of the parser core that receive token text (parseField, the string decoder, …) raise no index/slice out of range on any short token (folded over all strings over `-+0.1e\"a` up to length 3)", Run: c04ConsumersTotal},
+			{ID: "C04.R11", Doc: "the container mutators the machines call cannot panic on what they are handed: Set panics exactly for an odd count or a non-string key, Add converts and appends (= C06.R1, C05.R5 for Add)", Run: func(c *Ctx) {
+				n := runAs(c, "C04.R11", c06Set, nil)
+				n += runAs(c, "C04.R11", c05Sequence, func(o *Obligation) bool { return strings.Contains(o.Construct, "(*list).Add/") })
+				c.R.Floor("C04.R11", n, 3)
+			}},
 			{ID: "C04.R10", Doc: "the string decoder the machines call is the trusted JSON decoder applied once to the re-quoted token with its error propagated (= C03.R2): a hand-written decoder would have to be proved total on every token, which the folding of C04.R9 (straight-line index expressions only) does not do", Run: func(c *Ctx) { decoderRule(c, "C04.R10") }},
 			{ID: "C04.R6", Doc: "determinism: no map range, go statement, select, package-level state, time or randomness in the parse closure", Run: c04Determinism},
 			{ID: "C04.R7", Doc: "ParseFile = os.ReadFile(path); error => (nil, err); otherwise ParseObject(string(data)) unchanged", Run: c04ParseFile},
